@@ -191,6 +191,152 @@ func c07Where(i int, lay rtr.Layout) string {
 	return "payload"
 }
 
+// ---- long segments ----
+//
+// SegLen is a 6-bit field per segment (up to 63 hop fields, 64 in the whole path) and immutable in transit. The
+// generator's paths have 1-3 hops per segment; c07Pad lengthens a valid case by inserting foreign hop fields into its
+// segments (behind the first or in front of the last hop field of the segment, so that segment boundaries - cross-over
+// and peering hops - stay what they are). The hop fields of the AS under test keep their MACs (a MAC covers neither the
+// position nor the neighbours of a hop field).
+
+// c07Pad returns the case with segment i lengthened to target[i] hops (ok=false if a segment that would have to grow
+// has a single hop: nothing can be inserted without changing its first/last hop).
+func c07Pad(c *rtr.Case, target []int, beforeLast bool) (rtr.Case, bool) {
+	cc := *c
+	cc.Pkt = c.Pkt.Clone()
+	newIdx := map[int]int{} // old global hop index -> new
+	og, ng := 0, 0
+	for si := range cc.Pkt.Segs {
+		old := cc.Pkt.Segs[si].Hops
+		k := target[si] - len(old)
+		if k < 0 {
+			return cc, false
+		}
+		if k > 0 && len(old) < 2 {
+			return cc, false
+		}
+		pos := 1
+		if beforeLast {
+			pos = len(old) - 1
+		}
+		var hops []rtr.Hop
+		for i, h := range old {
+			if i == pos {
+				for f := 0; f < k; f++ {
+					hops = append(hops, rtr.Hop{In: uint16(1000 + 2*(ng+f)), Eg: uint16(1001 + 2*(ng+f)), Exp: 63,
+						Mac: [6]byte{0xc7, byte(si), byte(f), 0x5a, byte(3 * f), 0xa5}})
+				}
+				ng += k
+			}
+			newIdx[og+i] = ng + i
+			hops = append(hops, h)
+		}
+		cc.Pkt.Segs[si].Hops = hops
+		og += len(old)
+		ng += len(old)
+	}
+	if ng > 64 {
+		return cc, false
+	}
+	cc.Pkt.CurrHF = uint8(newIdx[int(c.Pkt.CurrHF)])
+	cc.V = append([]rtr.VHop{}, c.V...)
+	for i := range cc.V {
+		cc.V[i].Hop = newIdx[cc.V[i].Hop]
+	}
+	cc.Name = fmt.Sprintf("%s/seglen%v", c.Name, target)
+	if beforeLast {
+		cc.Name += "b"
+	}
+	return cc, true
+}
+
+// c07LongProfiles: the segment-length profiles a case is padded to: each segment position in turn lengthened to 31,
+// 32 (the top bit of the field), 33, 48 and the maximum the 64-hop limit leaves (at most 63), the others unchanged;
+// and all segments long at once (64 hops spread evenly).
+func c07LongProfiles(lens []int) [][]int {
+	var out [][]int
+	total := 0
+	for _, l := range lens {
+		total += l
+	}
+	for i, l := range lens {
+		if l < 2 {
+			continue
+		}
+		mx := min(63, 64-(total-l))
+		for _, t := range []int{31, 32, 33, 48, mx} {
+			if t > mx {
+				continue
+			}
+			p := append([]int{}, lens...)
+			p[i] = t
+			out = append(out, p)
+		}
+	}
+	if len(lens) > 1 {
+		even := append([]int{}, lens...)
+		room, growable := 64-total, 0
+		for _, l := range lens {
+			if l >= 2 {
+				growable++
+			}
+		}
+		if growable > 0 {
+			first := true
+			for i, l := range lens {
+				if l >= 2 {
+					even[i] += room / growable
+					if first {
+						even[i] += room % growable
+						first = false
+					}
+				}
+			}
+			out = append(out, even)
+		}
+	}
+	return out
+}
+
+// c07AxisSweep: every axis fully at three anchor settings of the others.
+func c07AxisSweep() (vars []c07Var) {
+	seen := map[c07Var]bool{}
+	add := func(v c07Var) {
+		if !seen[v] {
+			seen[v] = true
+			vars = append(vars, v)
+		}
+	}
+	for _, an := range []c07Var{{2, 0, 0, 0, 0}, {5, 3, 1, 3, 4}, {1, 4, 2, 4, 7}} {
+		for a := 0; a < c07NPay; a++ {
+			v := an
+			v.pay = a
+			add(v)
+		}
+		for a := 0; a < c07NExt; a++ {
+			v := an
+			v.ext = a
+			add(v)
+		}
+		for a := 0; a < c07NTcf; a++ {
+			v := an
+			v.tcf = a
+			add(v)
+		}
+		for a := 0; a < c07NHosts; a++ {
+			v := an
+			v.hosts = a
+			add(v)
+		}
+		for a := 0; a < c07NAlert; a++ {
+			v := an
+			v.alert = a
+			add(v)
+		}
+	}
+	return vars
+}
+
 func TestC07(t *testing.T) {
 	r := mc.NewRun(t, "C07", mc.Exploration)
 	r.Rule = "every valid packet of rtr.Cases (all path shapes x positions x interface/arrival choices) x {SCION, EPIC} x {single, multi BR} x " +
@@ -218,42 +364,16 @@ func TestC07(t *testing.T) {
 			}
 		}
 	} else {
-		seen := map[c07Var]bool{}
-		add := func(v c07Var) {
-			if !seen[v] {
-				seen[v] = true
-				vars = append(vars, v)
-			}
-		}
-		for _, an := range []c07Var{{2, 0, 0, 0, 0}, {5, 3, 1, 3, 4}, {1, 4, 2, 4, 7}} {
-			for a := 0; a < c07NPay; a++ {
-				v := an
-				v.pay = a
-				add(v)
-			}
-			for a := 0; a < c07NExt; a++ {
-				v := an
-				v.ext = a
-				add(v)
-			}
-			for a := 0; a < c07NTcf; a++ {
-				v := an
-				v.tcf = a
-				add(v)
-			}
-			for a := 0; a < c07NHosts; a++ {
-				v := an
-				v.hosts = a
-				add(v)
-			}
-			for a := 0; a < c07NAlert; a++ {
-				v := an
-				v.alert = a
-				add(v)
-			}
-		}
+		vars = c07AxisSweep()
 	}
 	r.Extra["variations_per_case"] = len(vars)
+	// long-segment versions of a case: the three anchor settings (thorough: the quick axis sweep)
+	longVars := []c07Var{{2, 0, 0, 0, 0}, {5, 3, 1, 3, 4}, {1, 4, 2, 4, 7}}
+	if mc.Thorough() {
+		longVars = c07AxisSweep()
+	}
+	r.Extra["variations_per_long_segment_case"] = len(longVars)
+	var nLong atomic.Int64
 	bubble(t, func(t *testing.T) {
 		now := uint32(bubbleStart.Unix())
 		epicTS := uint32((100*time.Second)/(21*time.Microsecond)) - 1
@@ -278,120 +398,140 @@ func TestC07(t *testing.T) {
 			rt := rtr.MustBuild(cfg)
 			cases := rtr.Cases(&cfg, key, now-100, 63)
 			for ci := j.lo; ci < len(cases); ci += j.st {
-				c := &cases[ci]
-				hIn, sIn := int(c.Pkt.CurrHF), int(c.Pkt.CurrINF)
-				for _, v := range vars {
-					p := c07Apply(c, v)
-					if j.pt == 1 {
-						cc := *c
-						cc.Pkt = p
-						p = cc.WithEPIC(key, epicTS)
-					}
-					raw, lay := p.Serialize()
-					res := rt.Process(raw, c.In)
-					k := fmt.Sprintf("%s|pt%d|m%v|%v", c.Name, j.pt, j.multi, v)
-					r.Case(k, true)
-					detail := func(what string) map[string]any {
-						return map[string]any{"case": k, "variation": fmt.Sprintf("%+v", v), "ingress": fmt.Sprint(c.In), "what": what,
-							"disp": dispName(res.Fast.Disp), "in": fmt.Sprintf("%x", raw[:min(len(raw), 260)]),
-							"out": fmt.Sprintf("%x", res.Out[:min(len(res.Out), 260)])}
-					}
-					if res.Panic != nil {
-						r.Violation("panic", detail(fmt.Sprint(res.Panic)))
-						rt.VerifStart()
-						continue
-					}
-					// which alert flags may this router consume?
-					cur := c.Pkt.HopRef(c.V[0].Hop)
-					_ = cur
-					hopMask := map[int]byte{}
-					consumable := func(vh rtr.VHop, ingress bool) byte {
-						cons := p.Segs[vh.Inf].ConsDir
-						// travel-ingress alert is the cons-ingress flag (0x02) in construction direction, else the cons-egress flag (0x01)
-						if ingress == cons {
-							return 0x02
+				// the case itself with every variation, and its long-segment versions with the anchor variations
+				type work struct {
+					c    rtr.Case
+					vars []c07Var
+				}
+				todo := []work{{cases[ci], vars}}
+				for pi, prof := range c07LongProfiles(cases[ci].Shape.Lens) {
+					for _, beforeLast := range []bool{false, true} {
+						if !mc.Thorough() && beforeLast != ((pi+ci)%2 == 1) {
+							continue // quick: the insertion point alternates
 						}
-						return 0x01
-					}
-					if c.In.Kind == 1 {
-						hopMask[c.V[0].Hop] |= consumable(c.V[0], true)
-					}
-					if c.EgressOwn {
-						last := c.V[len(c.V)-1]
-						hopMask[last.Hop] |= consumable(last, false)
-					}
-					alertSet := false // a consumable alert flag is set in the input
-					for h, m := range hopMask {
-						if raw[lay.HopOff[h]]&m != 0 {
-							alertSet = true
+						if lc, ok := c07Pad(&cases[ci], prof, beforeLast); ok {
+							todo = append(todo, work{lc, longVars})
+							nLong.Add(1)
 						}
 					}
-					switch res.Fast.Disp {
-					case router.VerifForward:
-						outInf, _ := metaOf(res.Out, lay)
-						infos := []int{sIn}
-						if int(outInf) < len(lay.InfoOff) {
-							infos = append(infos, int(outInf))
+				}
+				for wi := range todo {
+					c := &todo[wi].c
+					hIn, sIn := int(c.Pkt.CurrHF), int(c.Pkt.CurrINF)
+					for _, v := range todo[wi].vars {
+						p := c07Apply(c, v)
+						if j.pt == 1 {
+							cc := *c
+							cc.Pkt = p
+							p = cc.WithEPIC(key, epicTS)
 						}
-						if c.Xover {
-							infos = append(infos, sIn+1)
+						raw, lay := p.Serialize()
+						res := rt.Process(raw, c.In)
+						k := fmt.Sprintf("%s|pt%d|m%v|%v", c.Name, j.pt, j.multi, v)
+						r.Case(k, true)
+						detail := func(what string) map[string]any {
+							return map[string]any{"case": k, "variation": fmt.Sprintf("%+v", v), "ingress": fmt.Sprint(c.In), "what": what,
+								"disp": dispName(res.Fast.Disp), "in": fmt.Sprintf("%x", raw[:min(len(raw), 260)]),
+								"out": fmt.Sprintf("%x", res.Out[:min(len(res.Out), 260)])}
 						}
-						if d := c07Diff(raw, res.Out, lay, infos, hopMask, nil); d != "" {
-							r.Violation("illegal-change:"+c07Class(d), detail(d))
+						if res.Panic != nil {
+							r.Violation("panic", detail(fmt.Sprint(res.Panic)))
+							rt.VerifStart()
 							continue
 						}
-						if res.Fast.Egress != c.EgressIf {
-							harness("egress %d, want %d: %v", res.Fast.Egress, c.EgressIf, detail(""))
+						// which alert flags may this router consume?
+						cur := c.Pkt.HopRef(c.V[0].Hop)
+						_ = cur
+						hopMask := map[int]byte{}
+						consumable := func(vh rtr.VHop, ingress bool) byte {
+							cons := p.Segs[vh.Inf].ConsDir
+							// travel-ingress alert is the cons-ingress flag (0x02) in construction direction, else the cons-egress flag (0x01)
+							if ingress == cons {
+								return 0x02
+							}
+							return 0x01
 						}
-						_ = hIn
-						if c.Deliver {
-							r.Outcome("delivered-unchanged-but-mutable-state")
-						} else {
-							r.Outcome("forwarded-unchanged-but-mutable-state")
+						if c.In.Kind == 1 {
+							hopMask[c.V[0].Hop] |= consumable(c.V[0], true)
 						}
-					case router.VerifSlowPath:
-						if res.Fast.SPType != router.VerifSPRouterAlertIngress && res.Fast.SPType != router.VerifSPRouterAlertEgress {
-							if v.hosts == 4 && c.Deliver {
-								r.Outcome("svc-delivery-answered-" + fmt.Sprint(res.Fast.SPType, "/", res.Fast.SPCode))
+						if c.EgressOwn {
+							last := c.V[len(c.V)-1]
+							hopMask[last.Hop] |= consumable(last, false)
+						}
+						alertSet := false // a consumable alert flag is set in the input
+						for h, m := range hopMask {
+							if raw[lay.HopOff[h]]&m != 0 {
+								alertSet = true
+							}
+						}
+						switch res.Fast.Disp {
+						case router.VerifForward:
+							outInf, _ := metaOf(res.Out, lay)
+							infos := []int{sIn}
+							if int(outInf) < len(lay.InfoOff) {
+								infos = append(infos, int(outInf))
+							}
+							if c.Xover {
+								infos = append(infos, sIn+1)
+							}
+							if d := c07Diff(raw, res.Out, lay, infos, hopMask, nil); d != "" {
+								r.Violation("illegal-change:"+c07Class(d), detail(d))
 								continue
 							}
-							harness("valid packet answered with SCMP type %d code %d: %v", res.Fast.SPType, res.Fast.SPCode, detail(""))
-							continue
+							if res.Fast.Egress != c.EgressIf {
+								harness("egress %d, want %d: %v", res.Fast.Egress, c.EgressIf, detail(""))
+							}
+							_ = hIn
+							if c.Deliver {
+								r.Outcome("delivered-unchanged-but-mutable-state")
+							} else {
+								r.Outcome("forwarded-unchanged-but-mutable-state")
+							}
+						case router.VerifSlowPath:
+							if res.Fast.SPType != router.VerifSPRouterAlertIngress && res.Fast.SPType != router.VerifSPRouterAlertEgress {
+								if v.hosts == 4 && c.Deliver {
+									r.Outcome("svc-delivery-answered-" + fmt.Sprint(res.Fast.SPType, "/", res.Fast.SPCode))
+									continue
+								}
+								harness("valid packet answered with SCMP type %d code %d: %v", res.Fast.SPType, res.Fast.SPCode, detail(""))
+								continue
+							}
+							if !alertSet {
+								r.Violation("router-alert-handled-without-flag", detail("slow path for a router alert although no flag this router may consume is set"))
+								continue
+							}
+							if res.SlowErr != nil {
+								r.Outcome("router-alert-dropped")
+								continue
+							}
+							if v.pay == c07PayTraceroute {
+								r.Outcome("router-alert-traceroute-answered")
+								continue
+							}
+							// not a traceroute request: the router hands the received packet on; it must obey the same rule
+							infos := []int{sIn}
+							if c.Xover {
+								infos = append(infos, sIn+1)
+							}
+							if d := c07Diff(raw, res.SlowOut, lay, infos, hopMask, nil); d != "" {
+								dd := detail(d)
+								dd["out"] = fmt.Sprintf("%x", res.SlowOut[:min(len(res.SlowOut), 260)])
+								r.Violation("illegal-change-after-router-alert:"+c07Class(d), dd)
+								continue
+							}
+							r.Outcome("router-alert-consumed-packet-otherwise-unchanged")
+						default:
+							if v.hosts == 4 && c.Deliver {
+								r.Outcome("svc-delivery-" + dispName(res.Fast.Disp))
+								continue
+							}
+							harness("valid packet %s: %v", dispName(res.Fast.Disp), detail(""))
 						}
-						if !alertSet {
-							r.Violation("router-alert-handled-without-flag", detail("slow path for a router alert although no flag this router may consume is set"))
-							continue
-						}
-						if res.SlowErr != nil {
-							r.Outcome("router-alert-dropped")
-							continue
-						}
-						if v.pay == c07PayTraceroute {
-							r.Outcome("router-alert-traceroute-answered")
-							continue
-						}
-						// not a traceroute request: the router hands the received packet on; it must obey the same rule
-						infos := []int{sIn}
-						if c.Xover {
-							infos = append(infos, sIn+1)
-						}
-						if d := c07Diff(raw, res.SlowOut, lay, infos, hopMask, nil); d != "" {
-							dd := detail(d)
-							dd["out"] = fmt.Sprintf("%x", res.SlowOut[:min(len(res.SlowOut), 260)])
-							r.Violation("illegal-change-after-router-alert:"+c07Class(d), dd)
-							continue
-						}
-						r.Outcome("router-alert-consumed-packet-otherwise-unchanged")
-					default:
-						if v.hosts == 4 && c.Deliver {
-							r.Outcome("svc-delivery-" + dispName(res.Fast.Disp))
-							continue
-						}
-						harness("valid packet %s: %v", dispName(res.Fast.Disp), detail(""))
 					}
 				}
 			}
 		})
+		r.Extra["long_segment_cases"] = nLong.Load()
 
 		// ---- one-hop paths ----
 		cfg := rtr.StdCfg(true, key)
